@@ -147,8 +147,10 @@ fn run_set<S: PS>(ctx: &Ctx) -> Acc {
                 }
                 lens = pick;
             }
-            if thorough && si == 2 && cl == 0 {
-                lens.push(1 << 20);
+            if cl == 0 {
+                // one long message (just past 4 KiB .. 1 MiB) per shape job
+                let long = gen::long_message_lengths(&mut g);
+                lens.push(long[si % long.len()]);
             }
             for &ml in &lens {
                 let m = gen::message(&mut g, ml);
